@@ -31,7 +31,8 @@ from .. import types as T
 from ..dataflow import DefUse
 from ._h_A import (FactReach, Facts, branch_succ, loop_breaks, nodes_of_stmts, nodes_for, kwarg,
                    is_const, stmts_in, inliner, expander, bind_call, call_arg, real_loops, Owners,
-                   followed, returns_of, value_at, strip_wrappers, built_list)
+                   followed, returns_of, value_at, strip_wrappers, built_list, need, obj_sites,
+                   undissolved, MUTATING, opaque_parts)
 
 EXPLANATION = (
   "Effect analysis over the resolved call graph from the seven read-only entry points exported by "
@@ -51,7 +52,12 @@ EXPLANATION = (
   "to emit). R4: the revert the first cut relies "
   "on replays exactly the undo actions recorded since the checkpoint (_undo_to_checkpoint slices "
   "out_actions.undo from the checkpointed *undo* length to the end and hands all of it to "
-  "ApplyUndoActions). Not decided: the state after a "
+  "ApplyUndoActions). R5: the containers the bundle epilogue drains into doc actions without "
+  "evaluating formulas (found structurally: DocModel._auto_remove_set, drained by "
+  "apply_auto_removes) and that formula code can write outside a user action (setAutoRemove, "
+  "reached from UserTable.getSummarySourceGroup and the metadata auto-remove formulas) are copied "
+  "before the evaluation in get_formula_value and restored from that copy on every exit. "
+  "Not decided: the state after a "
   "FAILED bundle (rollback leaves dirty cells a read-only call may recompute), effects of code "
   "reached only through attribute access not listed as a seed, and effects inside user formulas "
   "(opaque; they run only behind the two cuts).")
@@ -90,14 +96,17 @@ def check(run, repo, tier):
   cg = CallGraph(w)
   r1_effects(run, w, cg)
   r2_guard(run, w)
-  r3_at_rest(run, w)
+  r3_at_rest(run, w, cg)
   r4_revert_since_checkpoint(run, w)
+  r5_queued_effects(run, w, cg)
 
 
 # ------------------------------------------------------------------------------------------
-def effect_sites(w, fi):
-  """[(kind, ast node)] primitive effect sites lexically in function fi."""
-  fn = w.fn_of(fi)
+def effect_sites(w, fi, fn=None):
+  """[(kind, ast node)] primitive effect sites lexically in function fi (or in the given Fn over a
+  rewritten copy of it)."""
+  fn = fn or w.fn_of(fi)
+  fi = fn.fi
   out = []
   dnames = set(w.doc_action_names())
   for s in fi.node.body:
@@ -236,7 +245,9 @@ def r1_effects(run, w, cg):
                   ("engine.Engine._undo_to_checkpoint", "log-write"),
                   ("docactions.DocActions.BulkUpdateRecord", "state-write"),
                   ("engine.Engine._update_table_model", "dirtying")):
-    kinds = {k for (k, n) in effect_sites(w, repo.func(q))}
+    # (helpers the effect was moved into are dissolved first: the detector, not the layout of the
+    # code, is what is being tested)
+    kinds = {k for (k, n) in effect_sites(w, repo.func(q), fn=inliner(w).fn(q))}
     if kind not in kinds:
       raise AnalysisError("effect detector no longer recognises the %s effect of %s" % (kind, q))
   # and the cuts must be what separates the entry points from effects (otherwise the rule is vacuous)
@@ -278,6 +289,10 @@ def r2_guard(run, w):
     a = call_arg(c, utf, utf.params()[1])
     return a is not None and ex.norm(a) == ex.norm(ast.Name(id=cpv, ctx=ast.Load()))
   undo = gv.nodes_calling(undoes, cfg)
+  if not undo:
+    und = undissolved(w, gv, cfg)
+    need(not und, "get_formula_value: calls `%s`, which cannot be followed; whether the doc "
+         "actions of the evaluation are reverted cannot be decided" % (short(und[0]) if und else ""))
   for e in sorted(ev):
     ok = bool(undo) and cfg.postdominated_by(e, undo, exits=exits)
     wit = None if ok else cfg.describe_path(cfg.path(e, exits, removed=undo, after=True))
@@ -289,6 +304,10 @@ def r2_guard(run, w):
           any(text(t) == "self._sync_request" for t in n.stmt.targets)]
   ons = {n.id for n in sets if not is_const(ex.expand(n.stmt.value), False)}
   offs = {n.id for n in sets if is_const(ex.expand(n.stmt.value), False)}
+  if ons and not offs:
+    und = undissolved(w, gv, cfg)
+    need(not und, "get_formula_value: calls `%s`, which cannot be followed; whether _sync_request "
+         "is reset cannot be decided" % (short(und[0]) if und else ""))
   for o in sorted(ons):
     ok = bool(offs) and cfg.postdominated_by(o, offs, exits=exits)
     run.ob(R2, gv.qualname, "self._sync_request = True ... finally: self._sync_request = False",
@@ -316,7 +335,31 @@ def r2_guard(run, w):
 
 
 # ------------------------------------------------------------------------------------------
-def r3_at_rest(run, w):
+DIRTY_KINDS = ("doc-action", "state-write", "dirtying")
+
+
+def _may_dirty(w, cg, fn, call):
+  """True / False: the call can / cannot reach code that writes document state or marks cells
+  dirty (effect analysis over everything it may invoke); None: its callee cannot be resolved."""
+  nm = fn.name(call) or ""
+  if nm in NOT_DIRTYING or nm.split(".")[0] in ("log", "logging", "traceback", "sys", "time"):
+    return False
+  if isinstance(call.func, ast.Name) and call.func.id in ("len", "bool", "list", "set", "dict",
+                                                          "sorted", "isinstance", "str", "repr"):
+    return False
+  tg = cg.resolve(fn, call)
+  if not tg:
+    return None
+  reach = forward(cg, w.repo, [f.qualname for f in tg], set())
+  for q in reach:
+    fi = w.repo.funcs.get(q)
+    if fi is not None and any(k in DIRTY_KINDS for (k, x) in effect_sites(w, fi)):
+      return True
+  return False
+
+
+# ------------------------------------------------------------------------------------------
+def r3_at_rest(run, w, cg):
   R3 = run.rule("C29-R3", "a successful apply_user_actions leaves recompute_map empty: the update "
                 "loop only returns empty-handed, the full recalculation runs it unrestricted, and "
                 "every dirtying step of apply_user_actions is followed by a full recalculation",
@@ -338,7 +381,11 @@ def r3_at_rest(run, w):
   if len(outer) != 1:
     raise AnalysisError("_update_loop: outer while loop not found")
   wl = outer[0]
-  ok_test = uex.norm(wl.test) == "self.recompute_map" and not wl.orelse
+  ok_test = uex.norm(wl.test) in ("self.recompute_map", "len(self.recompute_map) > 0",
+                                  "len(self.recompute_map) != 0", "bool(self.recompute_map)") \
+      and not wl.orelse
+  need(ok_test, "_update_loop: the outer loop is not `while self.recompute_map:` (`while %s:`); "
+       "when it ends cannot be followed" % short(wl.test))
   run.ob(R3, ul.qualname, "while self.recompute_map:", "the loop runs as long as any cell is dirty",
          ok_test, fi=ul.fi, node=wl, nontrivial=False)
   fr = Facts(cfg, {"ignore_other_changes"}, ex=uex)
@@ -357,7 +404,12 @@ def r3_at_rest(run, w):
          % (cfg.nodes[hit[0]].lineno if hit else wl.lineno))
   # nothing after the loop dirties cells
   after = cfg.reach_after(wn) - nodes_of_stmts(cfg, wl.body) - wn
-  calls_after = [c for n in after for c in calls_in(cfg.nodes[n].exprs)]
+  calls_after = [c for n in after for c in calls_in(cfg.nodes[n].exprs)
+                 if (ul.name(c) or "") not in NOT_DIRTYING]
+  for c in calls_after:
+    need(_may_dirty(w, cg, ul, c) is not None, "_update_loop: cannot tell whether `%s`, called "
+         "after the loop, marks cells dirty" % short(c))
+  calls_after = [c for c in calls_after if _may_dirty(w, cg, ul, c)]
   run.ob(R3, ul.qualname, "no call after the loop", "nothing runs between the loop's exit test "
          "and the return", not calls_after, fi=ul.fi, nontrivial=False)
   # (b) _bring_all_up_to_date runs it unrestricted
@@ -369,6 +421,8 @@ def r3_at_rest(run, w):
     raise AnalysisError("_bring_all_up_to_date: _update_loop call not found")
   for (n, c) in loops:
     a = call_arg(c, ul.fi, "ignore_other_changes")
+    need(a is not None and isinstance(bex.expand(a), ast.Constant), "_bring_all_up_to_date: the "
+         "ignore_other_changes argument of `%s` is not a constant" % short(c))
     run.ob(R3, ba.qualname, "self._update_loop(<all dirty nodes>)", "the full recalculation does "
            "not stop at the requested work items",
            a is not None and is_const(bex.expand(a), False), fi=ba.fi, node=c)
@@ -422,6 +476,13 @@ def r3_at_rest(run, w):
              "recalculation follows before it is asked again")
     else:
       ok = acfg.postdominated_by(n.id, recalc)
+      if not ok:
+        # only a step that is known to be able to dirty cells counts
+        verdicts = [_may_dirty(w, cg, au, c) for c in cs]
+        need(None not in verdicts, "apply_user_actions: cannot tell whether `%s`, which is not "
+             "followed by a full recalculation, marks cells dirty"
+             % short(cs[verdicts.index(None)] if None in verdicts else cs[0]))
+        ok = not any(verdicts)
       what = "%s ... self._bring_all_up_to_date()" % short(cs[0], 60)
       why = "a step that may dirty cells is followed by a full recalculation before returning"
     wit = None
@@ -460,6 +521,8 @@ def r3_at_rest(run, w):
         dotted(x.left.func) == "len" and len(x.left.args) == 1:
       x = x.left.args[0]
     ok = x is not None and rtxt is not None and text(x) == rtxt
+    need(ok or not opaque_parts(w, ar.fi, v), "apply_auto_removes: cannot follow what it returns "
+         "(`%s`)" % short(v))
     run.ob(R3, ar.qualname, "return bool(<the records removed>)", "apply_auto_removes reports "
            "work exactly when it removed something", ok, fi=ar.fi, node=r)
 
@@ -482,6 +545,8 @@ def r4_revert_since_checkpoint(run, w):
       comps.append(e.args[0].attr)
     else:
       comps.append(None)
+  need(comps.count("undo") == 1 or None not in comps, "_get_undo_checkpoint: cannot follow the "
+       "components of the checkpoint (`%s`)" % short(rets[0][1]))
   run.ob(R4, gc.qualname, "return (..., len(self.out_actions.undo), ...)", "the checkpoint "
          "remembers how many undo actions the log held", comps.count("undo") == 1, fi=gc.fi,
          node=rets[0][0], nontrivial=False)
@@ -530,6 +595,8 @@ def r4_revert_since_checkpoint(run, w):
     run.ob(R4, ut.qualname, "ApplyUndoActions([get_action_repr(a) for a in <undo slice>])",
            "every undo action of the slice is replayed (no filter), in its serialised form",
            ok_elems, fi=ut.fi, node=c)
+    need(not opaque_parts(w, ut.fi, src), "_undo_to_checkpoint: cannot follow which undo actions "
+         "are replayed (`%s`)" % short(src))
     ok = isinstance(src, ast.Subscript) and isinstance(src.slice, ast.Slice) and \
         endswith(dotted(src.value), "out_actions.undo") and src.slice.upper is None and \
         src.slice.step is None and src.slice.lower is not None and \
@@ -540,6 +607,199 @@ def r4_revert_since_checkpoint(run, w):
            "actions or removals are in the log", ok, fi=ut.fi, node=c,
            witness=None if ok else "the slice replayed is `%s`; component %d of the checkpoint is "
            "the undo length" % (short(src), k))
+
+
+# ------------------------------------------------------------------------------------------
+# What formula code can reach without going through a user action (whose doc actions the checkpoint
+# reverts) or the two cuts: the methods of the table object handed to formulas, record field
+# access, and the formula functions of the metadata tables.
+FORMULA_SURFACE_PREFIXES = ("table.UserTable.", "docmodel.MetaTableExtras.")
+FORMULA_SURFACE = ("table.Table._add_field_to_record_classes.record_field",
+                   "table.Table._add_field_to_record_classes.recordset_field",
+                   "records.Record.__getattr__", "records.RecordSet.__getattr__")
+EVALUATION_CUT = ("engine.Engine._update_loop", "engine.Engine._recompute",
+                  "engine.Engine._recompute_step", "engine.Engine.apply_user_actions")
+COPIERS = ("set", "frozenset", "list", "tuple", "sorted", "dict")
+
+
+def _is_copy_of(e, pred):
+  """Is e a fresh container with the contents of something satisfying pred: set(x), list(x),
+  x.copy(), set(x) | set() ...?"""
+  if isinstance(e, ast.Call) and dotted(e.func) in COPIERS and len(e.args) == 1 and not e.keywords:
+    return pred(e.args[0]) or _is_copy_of(e.args[0], pred)
+  if isinstance(e, ast.Call) and isinstance(e.func, ast.Attribute) and e.func.attr == "copy" and \
+      not e.args:
+    return pred(e.func.value)
+  if isinstance(e, (ast.SetComp, ast.ListComp)) and len(e.generators) == 1 and \
+      not e.generators[0].ifs and text(e.elt) == text(e.generators[0].target):
+    return pred(e.generators[0].iter)
+  return False
+
+
+def _escapes(cfg, start, through, exits, no_raise):
+  """Is one of `exits` reachable after node `start` without passing a node of `through`? Nodes in
+  `no_raise` are assumed to complete normally."""
+  seen, work = set(), list(cfg.succ[start])
+  while work:
+    x = work.pop()
+    if x in seen or x in through:
+      continue
+    seen.add(x)
+    if x in exits:
+      return True
+    work.extend(cfg.normal_succ(x) if x in no_raise else cfg.succ[x])
+  return False
+
+
+def r5_queued_effects(run, w, cg):
+  R5 = run.rule("C29-R5", "state through which formula code queues a later doc action without "
+                "emitting one (the auto-removal marks) is saved before the read-only evaluation "
+                "and restored on every exit of Engine.get_formula_value", floor=2)
+  repo = w.repo
+  inl = inliner(w)
+  # ---- (a) the queues: containers of the engine / docmodel that the epilogue of a bundle drains
+  #          into doc actions without evaluating formulas
+  au = inl.fn("engine.Engine.apply_user_actions")
+  queues = {}
+  for (n, c, nm) in au.calls():
+    for F in cg.resolve(au, c):
+      if F.cls is None or F.cls.qualname not in (T.ENGINE, T.DOCMODEL) or F.qualname in CUTS or \
+          F.qualname in EVALUATION_CUT:
+        continue
+      reach = forward(cg, repo, [F.qualname], set(EVALUATION_CUT))
+      emits = any(k == "doc-action" for q in reach if q in repo.funcs
+                  for (k, x) in effect_sites(w, repo.funcs[q]))
+      if not emits:
+        continue
+      for x in ast.walk(F.node):
+        if isinstance(x, ast.Attribute) and isinstance(x.value, ast.Name) and x.value.id == "self":
+          tag = w.typer.attrs.get((F.cls.qualname, x.attr)) or ""
+          if tag.startswith(("set:", "list:", "dict:")):
+            queues.setdefault((F.cls.qualname, x.attr), set()).add(F.qualname)
+  need(queues, "apply_user_actions: no container drained into doc actions by the bundle epilogue "
+       "was found (the auto-removal queue moved?)")
+  seeds = [q for q in repo.funcs if q.startswith(FORMULA_SURFACE_PREFIXES) or q in FORMULA_SURFACE]
+  need(len(seeds) >= 5, "the formula-facing surface (table.UserTable, record fields, metadata "
+       "formula functions) was not found")
+  cut = set(CUTS) | set(EVALUATION_CUT) | {"engine.Engine.apply_doc_action"} | \
+      {q for q in repo.funcs if q.startswith("useractions.UserActions.")}
+  surface = forward(cg, repo, seeds, cut)
+  gv = inl.fn(GUARDED)
+  ex = expander(gv)
+  cfg = gv.xcfg
+  du = DefUse(gv, cfg)
+  ev = gv.nodes_calling(lambda c, nm, f: endswith(nm, "self._recompute_one_cell"), cfg)
+  need(ev, "get_formula_value: evaluation not found")
+  exits = {cfg.exit.id, cfg.raise_exit.id}
+  # a failure of the rollback itself is outside this rule (the engine is then inconsistent anyway)
+  undo_nodes = gv.nodes_calling(lambda c, nm, f: endswith(nm, "self._undo_to_checkpoint"), cfg)
+  for (cq, attr), consumers in sorted(queues.items()):
+    ci = repo.cls(cq)
+    def is_q(e):
+      return isinstance(e, ast.Attribute) and e.attr == attr
+    # ---- (b) who writes the queue
+    markers, setters, getters, alias_getters = [], {}, set(), set()
+    for fi in repo.all_functions():
+      fex = None
+      for site in obj_sites(fi, attr):
+        kind = site[0]
+        what = site[1] if kind == "call" else kind
+        if kind == "read" or (kind == "call" and what not in MUTATING):
+          continue
+        if kind == "escape":
+          continue            # judged below (getters) or harmless (passed to sorted(), returned)
+        if fi.name == "__init__" or fi.qualname in consumers:
+          continue
+        if kind == "rebind":
+          # <x>.<attr> = <copy of a parameter>: a restore accessor
+          node = site[1]
+          asg = [st for st in stmts_in(fi.node.body, ast.Assign)
+                 if any(t is node for t in st.targets)]
+          fex = fex or expander(w.fn_of(fi))
+          ps = [p_ for p_ in fi.params() if p_ not in ("self", "cls")]
+          v = fex.expand(asg[0].value) if asg else None
+          src = [p_ for p_ in ps if v is not None and
+                 (text(v) == p_ or _is_copy_of(v, lambda y, p_=p_: text(y) == p_))]
+          if len(src) == 1:
+            setters[fi.qualname] = src[0]
+            continue
+        if not any(fi is m_ for m_ in markers):
+          markers.append(fi)
+    for fi in ci.methods.values():
+      rs = [(r, v) for (n_, r, v) in returns_of(w.fn_of(fi)) if v is not None]
+      if rs and all(_is_copy_of(v, is_q) for (r, v) in rs):
+        getters.add(fi.qualname)
+      elif rs and all(is_q(v) for (r, v) in rs):
+        alias_getters.add(fi.qualname)
+    reachable = sorted(fi.qualname for fi in markers if fi.qualname in surface)
+    run.note("C29-R5 %s.%s: drained by %s; written by %s; reachable from formula code: %s"
+             % (cq, attr, ", ".join(sorted(consumers)), ", ".join(sorted(f.qualname for f in markers)),
+                ", ".join(reachable) or "none"))
+    if not reachable:
+      run.ob(R5, cq, "%s is not written from formula code" % attr, "formula code cannot queue a "
+             "later doc action through this container", True, nontrivial=False)
+      continue
+    # ---- (c) saved before the evaluation, restored on every exit
+    def resolves_to(c, quals):
+      tg = {f.qualname for f in cg.resolve(gv, c)}
+      return bool(tg) and tg <= set(quals)
+    saves = []          # (node, local, is a copy?)
+    for n in cfg.nodes:
+      if n.kind == "stmt" and isinstance(n.stmt, ast.Assign) and len(n.stmt.targets) == 1 and \
+          isinstance(n.stmt.targets[0], ast.Name):
+        v = n.stmt.value
+        if isinstance(v, ast.Call) and resolves_to(v, getters):
+          saves.append((n, n.stmt.targets[0].id, True))
+        elif isinstance(v, ast.Call) and resolves_to(v, alias_getters):
+          saves.append((n, n.stmt.targets[0].id, False))
+        elif _is_copy_of(ex.expand(v), is_q) and not isinstance(ex.expand(v), ast.Name):
+          saves.append((n, n.stmt.targets[0].id, True))
+        elif is_q(ex.expand(v)):
+          saves.append((n, n.stmt.targets[0].id, False))
+    restores = {}       # node id -> local restored
+    for n in cfg.nodes:
+      for c in calls_in(n.exprs):
+        tg = [f for f in cg.resolve(gv, c)]
+        if tg and all(f.qualname in setters for f in tg):
+          a = call_arg(c, tg[0], setters[tg[0].qualname])
+          a = strip_wrappers(a, names=COPIERS) if a is not None else None
+          if isinstance(a, ast.Name):
+            restores[n.id] = a.id
+      if n.kind == "stmt" and isinstance(n.stmt, ast.Assign) and \
+          any(is_q(t) for t in n.stmt.targets):
+        a = strip_wrappers(n.stmt.value, names=COPIERS)
+        if isinstance(a, ast.Name):
+          restores[n.id] = a.id
+    if not saves or not restores:
+      und = undissolved(w, gv, cfg)
+      need(not und, "get_formula_value: calls `%s`, which cannot be followed; whether %s is saved "
+           "and restored there cannot be decided" % (short(und[0]) if und else "", attr))
+    ok_save = False
+    ok_restore = False
+    wit = None
+    for (sn, local, is_copy) in saves:
+      good = {r for r, v in restores.items() if v == local}
+      reb = du.rebinders(local) - {sn.id}
+      s_ok = is_copy and all(cfg.dominated_by(e, {sn.id}) for e in ev) and \
+          not (cfg.reach_after(ev) & {sn.id}) and not reb
+      r_ok = bool(good) and not any(_escapes(cfg, e, good, exits, undo_nodes) for e in ev)
+      if not is_copy:
+        wit = "the value saved is the container itself, not a copy: marks added later show in it"
+      elif not r_ok and s_ok:
+        wit = "an exit of get_formula_value is reachable after the evaluation without restoring " \
+            "%s from `%s`" % (attr, local)
+      ok_save = ok_save or s_ok
+      ok_restore = ok_restore or (s_ok and r_ok)
+    run.ob(R5, gv.qualname, "<saved> = copy of %s before _recompute_one_cell" % attr,
+           "what formula code queues through %s during a read-only evaluation can be told apart "
+           "from what was queued before" % attr, ok_save, fi=gv.fi,
+           witness=None if ok_save else (wit or "no copy of %s is taken before the evaluation; "
+                                         "written from formula code by %s" % (attr, reachable[0])))
+    run.ob(R5, gv.qualname, "_recompute_one_cell(...) -> finally: %s restored from <saved>" % attr,
+           "marks made by the evaluated formula (summary group formulas, metadata auto-remove "
+           "formulas) are forgotten whether evaluation returns or raises: the next bundle removes "
+           "nothing on behalf of a read-only call", ok_restore, fi=gv.fi,
+           witness=None if ok_restore else (wit or "%s is not restored on every exit" % attr))
 
 
 # Calls in apply_user_actions that cannot mark cells dirty (one reason each).
@@ -620,12 +880,18 @@ VARIANTS = [
       self._sync_request = False""", "C29-R2"),
   ("checkpoint-after-evaluation", EN,
    """    checkpoint = self._get_undo_checkpoint()
+    # Formulas may also mark records for automatic removal (docmodel.setAutoRemove()); remember
+    # the marks so that this evaluation leaves them as they were.
+    auto_removes = self.docmodel.get_auto_removes()
     # Makes calls to REQUEST synchronous, since raising a RequestingError can't work here.
     self._sync_request = True
     try:
       return self._recompute_one_cell(table, col, row_id, record_attributes=record_attributes)
     finally:""",
-   """    # Makes calls to REQUEST synchronous, since raising a RequestingError can't work here.
+   """    # Formulas may also mark records for automatic removal (docmodel.setAutoRemove()); remember
+    # the marks so that this evaluation leaves them as they were.
+    auto_removes = self.docmodel.get_auto_removes()
+    # Makes calls to REQUEST synchronous, since raising a RequestingError can't work here.
     self._sync_request = True
     try:
       result = self._recompute_one_cell(table, col, row_id, record_attributes=record_attributes)
@@ -644,6 +910,71 @@ VARIANTS = [
   ("revert-skips-last-undo", EN,
    "      undo_actions = self.out_actions.undo[len_undo:]",
    "      undo_actions = self.out_actions.undo[len_undo:-1]", "C29-R4"),
+  ("auto-remove-marks-not-saved-or-restored", EN,
+   """    auto_removes = self.docmodel.get_auto_removes()
+    # Makes calls to REQUEST synchronous, since raising a RequestingError can't work here.
+    self._sync_request = True
+    try:
+      return self._recompute_one_cell(table, col, row_id, record_attributes=record_attributes)
+    finally:
+      # It is possible for formula evaluation to have side-effects that produce DocActions (e.g.
+      # lookupOrAddDerived() creates those). In case of get_formula_error(), these aren't fully
+      # processed (e.g. don't get applied to DocStorage), so it's important to reverse them.
+      self._sync_request = False
+      self._undo_to_checkpoint(checkpoint)
+      self.docmodel.set_auto_removes(auto_removes)
+""",
+   """    # Makes calls to REQUEST synchronous, since raising a RequestingError can't work here.
+    self._sync_request = True
+    try:
+      return self._recompute_one_cell(table, col, row_id, record_attributes=record_attributes)
+    finally:
+      # It is possible for formula evaluation to have side-effects that produce DocActions (e.g.
+      # lookupOrAddDerived() creates those). In case of get_formula_error(), these aren't fully
+      # processed (e.g. don't get applied to DocStorage), so it's important to reverse them.
+      self._sync_request = False
+      self._undo_to_checkpoint(checkpoint)
+""", "C29-R5"),
+  ("auto-remove-marks-not-restored", EN,
+   "      self._undo_to_checkpoint(checkpoint)\n      self.docmodel.set_auto_removes(auto_removes)\n",
+   "      self._undo_to_checkpoint(checkpoint)\n", "C29-R5"),
+  ("auto-remove-marks-restored-only-on-success", EN,
+   """    try:
+      return self._recompute_one_cell(table, col, row_id, record_attributes=record_attributes)
+    finally:
+      # It is possible for formula evaluation to have side-effects that produce DocActions (e.g.
+      # lookupOrAddDerived() creates those). In case of get_formula_error(), these aren't fully
+      # processed (e.g. don't get applied to DocStorage), so it's important to reverse them.
+      self._sync_request = False
+      self._undo_to_checkpoint(checkpoint)
+      self.docmodel.set_auto_removes(auto_removes)
+""",
+   """    try:
+      result = self._recompute_one_cell(table, col, row_id, record_attributes=record_attributes)
+      self.docmodel.set_auto_removes(auto_removes)
+      return result
+    finally:
+      self._sync_request = False
+      self._undo_to_checkpoint(checkpoint)
+""", "C29-R5"),
+  ("auto-remove-marks-saved-by-alias", "sandbox/grist/docmodel.py",
+   "    return set(self._auto_remove_set)\n", "    return self._auto_remove_set\n", "C29-R5"),
+  ("auto-remove-marks-saved-after-evaluation", EN,
+   """    auto_removes = self.docmodel.get_auto_removes()
+    # Makes calls to REQUEST synchronous, since raising a RequestingError can't work here.
+    self._sync_request = True
+    try:
+      return self._recompute_one_cell(table, col, row_id, record_attributes=record_attributes)
+    finally:""",
+   """    # Makes calls to REQUEST synchronous, since raising a RequestingError can't work here.
+    self._sync_request = True
+    try:
+      return self._recompute_one_cell(table, col, row_id, record_attributes=record_attributes)
+    finally:
+      auto_removes = self.docmodel.get_auto_removes()""", "C29-R5"),
+  ("auto-remove-restore-merges-instead-of-replacing", "sandbox/grist/docmodel.py",
+   "    self._auto_remove_set = set(records)\n", "    self._auto_remove_set.update(records)\n",
+   "C29-R5"),
   ("update-loop-gives-up", EN,
    """      if self.recompute_map and self._recompute_done_counter == 0:
         raise Exception('data engine not making progress updating formulas')""",
